@@ -370,7 +370,7 @@ func init() {
 		ID:        "C15",
 		Level:     "exploration",
 		NeedsTerm: true,
-		Rule: "candidate sets of N = 2..60 distinct values (plain, described, aliased by shared descriptions with 1-6 aliases each, 2-4 tags, long values, double-width values) on terminals 20-160 x 6-40, autocomplete on in one case in five (the candidates are then generated before the first completion key) (menus taller than the screen); 2N+3 presses of menu-complete (forward), menu-complete-backward, or a random f/b walk; the inserted word after every press is extracted with C14's framing; oracle: every inserted word is an offered value, every window of N consecutive presses visits N distinct values, press i and press i+N insert the same value; mixed walks are only required to insert offered values. " +
+		Rule: "one plain / described case in four displays the candidates as a list (DisplayList), half of the described ones with short descriptions; candidate sets of N = 2..60 distinct values (plain, described, aliased by shared descriptions with 1-6 aliases each, 2-4 tags, long values, double-width values) on terminals 20-160 x 6-40, autocomplete on in one case in five (the candidates are then generated before the first completion key) (menus taller than the screen); 2N+3 presses of menu-complete (forward), menu-complete-backward, or a random f/b walk; the inserted word after every press is extracted with C14's framing; oracle: every inserted word is an offered value, every window of N consecutive presses visits N distinct values, press i and press i+N insert the same value; mixed walks are only required to insert offered values. " +
 			"distinct non-trivial = distinct (kind, N bucket, width/40, height/12, direction) tuples",
 		Assumptions: []string{"menu-complete / menu-complete-backward are bound by name to C-x f / C-x b in the emacs and menu-select keymaps", "Emacs mode"},
 		N: func(tier string) int {
